@@ -85,6 +85,12 @@ class ObjStub:
         self.attrs = attrs
 
 
+class VecMask:
+    """boolean array of the shape (2, n) of a vector field (a comparison of a vector with something)"""
+    def __init__(self, text):
+        self.text = text
+
+
 class OneShot:
     """a generator object (consumable once) holding the elements it would yield"""
     def __init__(self, items, line):
@@ -808,6 +814,12 @@ class Interp:
             r = (a is b) or (a is None and b is None)
             return r if isinstance(op, ast.Is) else not r
         sym = {ast.Lt: "<", ast.LtE: "<=", ast.Gt: ">", ast.GtE: ">=", ast.Eq: "==", ast.NotEq: "!="}[type(op)]
+        if isinstance(a, Vec) or isinstance(b, Vec):
+            return VecMask(unparse(node))
+        if hasattr(a, "_fd_compare"):
+            return a._fd_compare(sym, b)
+        if hasattr(b, "_fd_compare"):
+            return b._fd_compare(sym, a)
         if isinstance(a, bool) and isinstance(b, bool) and sym in ("==", "!="):
             return (a == b) if sym == "==" else (a != b)
         if _is_conc(a) and _is_conc(b) or isinstance(a, str) or isinstance(b, str) or a is None or b is None:
@@ -992,6 +1004,8 @@ class Interp:
         if isinstance(cont, dict):
             if idx in cont:
                 return cont[idx]
+            if hasattr(cont, "_fd_missing"):
+                raise cont._fd_missing(idx, func, ln)
             raise AnalysisError("%s:%d key %r missing" % (func.qualname, ln, idx))
         if isinstance(cont, (list, tuple)):
             if isinstance(idx, int):
@@ -1012,6 +1026,11 @@ class Interp:
             if isinstance(idx, (int, NLin)):
                 return self.stn.elem(cont, idx)
             raise AnalysisError("%s:%d unsupported array index" % (func.qualname, ln))
+        if isinstance(cont, Vec) and isinstance(idx, VecMask):
+            e = AnalysisError("%s:%d vector field indexed with a boolean mask of its own shape" % (func.qualname, ln))
+            e.violation = ("VEC-LAYOUT", func.qualname, "`%s` (line %d) indexes a (2, n) vector field with a (2, n) boolean mask `%s`: numpy returns the selected entries FLATTENED row by row (all selected x-components, then all selected y-components), so entry k of the result belongs to face k only for particular orderings of the faces -- not a point-wise selection" % (unparse(node)[:60], ln, idx.text[:40]),
+                           "vec-mask", {"C02", "C01", "C03", "C10", "C13", "C15"})
+            raise e
         if isinstance(cont, Vec):
             if isinstance(idx, tuple) and len(idx) == 2 and isinstance(idx[0], int) and _full_slice(idx[1]):
                 self._noncov((ln, "component %d of a vector picked" % idx[0]))
